@@ -64,7 +64,9 @@ T2 == { <<"a", AY>>, <<"a", AX>>, <<"a", <<"a", <<"s">>>>>>, <<"a", SYX>>, <<"a"
         <<"a", <<"v">>>>, DSV, <<"a", <<"{", <<"y">>, AX>>>>, <<"a", <<"{", <<"s">>, SYX>>>>,
         <<"a", <<"{", <<"u">>, DSV>>>>, <<"(", <<<<"v">>, <<"v">>>>>>, <<"(", <<<<"y">>, <<"v">>, <<"x">>>>>>,
         <<"a", <<"a", AX>>>>, <<"a", <<"{", <<"s">>, <<"a", <<"v">>>>>>>>,
-        <<"a", <<"(", <<<<"y">>, DSV>>>>>>, <<"a", DSV>>, <<"(", <<DSV, <<"y">>>>>> }     \* dictionaries inside other containers
+        <<"a", <<"(", <<<<"y">>, DSV>>>>>>, <<"a", DSV>>, <<"(", <<DSV, <<"y">>>>>>,     \* dictionaries inside other containers
+        <<"(", << <<"(", <<<<"y">>>>>>, <<"(", <<<<"q">>>>>> >>>>,                            \* sibling containers inside a struct
+        <<"(", << <<"a", <<"(", <<<<"y">>, <<"y">>>>>>>>, <<"a", <<"(", <<<<"s">>>>>>>> >>>> }
 
 (* types that may appear inside a variant, by nesting level of the variant *)
 VT(lvl) == IF lvl = 0 THEN {<<"y">>, <<"u">>, <<"x">>, <<"d">>, <<"s">>, <<"g">>, <<"b">>, <<"o">>, AY, AX, SYX, DSV, <<"v">>,
